@@ -12,6 +12,7 @@ import (
 	"sync"
 	"time"
 
+	"github.com/netflix/rend/handlers/memcached/batched"
 	"verifharness/gal"
 	"verifharness/rig"
 	"verifharness/stack"
@@ -110,12 +111,18 @@ func c14child(e *env) {
 	w := rig.NewWriter(e.out, "C14", e.tier, e.seed)
 	w.Shards = 16
 	r := rig.NewRand(e.seed*977 + 14)
-	rounds := 6
+	rounds := 9
 	if e.tier == "thorough" {
-		rounds = 40
+		rounds = 60
 	}
 	for round := 0; round < rounds; round++ {
 		nconn := []int{2, 4, 8, 16, 32, 64}[round%6]
+		// every third round: both tiers through batching pools (shared backend connections and
+		// reader goroutines, handlers/memcached/batched) instead of one std handler per connection
+		pooled := round%3 == 2
+		if pooled && nconn < 8 {
+			nconn = 8
+		}
 		if e.tier != "thorough" && nconn > 16 {
 			nconn = 16
 		}
@@ -126,6 +133,25 @@ func c14child(e *env) {
 		b.L1.LogOn, b.L2.LogOn = false, false
 		b.L1.SetNow(t0)
 		b.L2.SetNow(t0)
+		sock1, sock2 := "", ""
+		if pooled {
+			sock1, sock2 = newSock(e), newSock(e)
+			ln1, err1 := b.L1.ListenUnix(sock1)
+			ln2, err2 := b.L2.ListenUnix(sock2)
+			if err1 != nil || err2 != nil {
+				rig.Die("listen: %v %v", err1, err2)
+			}
+			defer ln1.Close()
+			defer ln2.Close()
+			// two backend connections per pool
+			batched.NewHandler(sock1, stack.BatchOpts)
+			batched.VerifAddConn(sock1)
+			batched.NewHandler(sock2, stack.BatchOpts)
+			batched.VerifAddConn(sock2)
+			w.Count("round=batching-pools")
+		} else {
+			w.Count("round=std-handlers")
+		}
 		type connRun struct {
 			c     fsCase
 			steps []string
@@ -158,7 +184,7 @@ func c14child(e *env) {
 				for si, st := range cr.c.Steps {
 					cn, ok := conns[st.Port]
 					if !ok {
-						cn = stack.Dial(b, stack.Config{Orca: orcaOf[st.Port], Locked: cr.c.Locked, MultiRd: true, L1: "std", Proto: cr.c.Proto})
+						cn = stack.Dial(b, stack.Config{Orca: orcaOf[st.Port], Locked: cr.c.Locked, MultiRd: true, L1: "std", Proto: cr.c.Proto, L1Sock: sock1, L2Sock: sock2})
 						conns[st.Port] = cn
 					}
 					var req []byte
@@ -201,7 +227,7 @@ func c14child(e *env) {
 				Nontrivial: nconn >= 2 && len(cr.steps) > 3, Tags: caseTags(cr.c)})
 		}
 	}
-	w.Res.Rule = "rounds of 2..64 real connections (full stack: parser, server loop, orchestrator, std handlers, shared fake backends) started together, each running a random command sequence on its own private keys; every connection's replies are compared with the sequential model of that connection alone; in the thorough tier the binary is built with -race and every race report naming repository code is a finding"
+	w.Res.Rule = "rounds of 2..64 real connections (full stack: parser, server loop, orchestrator, std handlers or - every third round - the batching pools of handlers/memcached/batched for both tiers, shared fake backends) started together, each running a random command sequence on its own private keys; every connection's replies are compared with the sequential model of that connection alone; in the thorough tier the binary is built with -race and every race report naming repository code is a finding"
 	if err := w.Finish([]string{"base.Bytes", "base.Harness", "spec.MapSpec", "orca.Types", "proto.Resp", "checks.Check01"}, "case01", "check01 14"); err != nil {
 		rig.Die("%v", err)
 	}
